@@ -145,7 +145,9 @@ def _run_chunk(seed: int, tier: str, indices: list[int], wall_cap: float) -> dic
             try:
                 plan = chk.gen(seed, i, tier)
                 res = chk.run(plan)
-            except Exception:  # harness problem, not a property violation
+            except (KeyboardInterrupt, SystemExit):
+                raise
+            except BaseException:  # harness problem (or an exception class no oracle classified), not a verdict
                 agg["errors"].append({"index": i, "error": traceback.format_exc(limit=12)})
                 continue
             agg["runs"] += 1
@@ -176,7 +178,9 @@ def _run_chunk(seed: int, tier: str, indices: list[int], wall_cap: float) -> dic
 def _fires(chk: Check, plan: dict[str, Any], sig: str) -> bool:
     try:
         res = chk.run(plan)
-    except Exception:
+    except (KeyboardInterrupt, SystemExit):
+        raise
+    except BaseException:
         return False
     return any(v["sig"] == sig for v in res["violations"])
 
